@@ -11,11 +11,33 @@ SG = "./pkg/pdfcpu/sign"
 PR = "./pkg/pdfcpu/primitives"
 
 PROPS = {
+    "C01": dict(
+        pkg=API,
+        explanation="the api *File glue (open input, stage output via O_EXCL reservation or hidden temp file, processing, deferred commit/cleanup) is executed symbolically on the interpreted file system model: path relation (in place, same string, new output, existing output, different spelling, hard link), which file system call of the operation table fails, at which call the process is killed, and the processing outcome (success, error after a partial write, panic) are all choices explored exhaustively; the same harness replays natively on the real file system",
+        outside="operations other than the harnessed ones (one harness per wrapper family is written by hand; the generator over all 117 *File functions of DESIGN 3.4 is not built), the processing steps themselves (stubbed: they read the input, write the output, fail or panic), more than one injected fault per run, power loss (C07), CLI layer (pkg/cli)",
+        assumptions=["file system contract of rt/vfs.go: failed calls change nothing, rename is atomic, O_EXCL create fails iff the name exists, CreateTemp returns a fresh name", "stub contract: processing touches nothing but its reader and writer"],
+        harnesses=[dict(name="VerifOptimizeFile", bounds=dict(quick=dict(CALLS=10), thorough=dict(CALLS=12)), opts=dict(unwind=300, workers=8))],
+    ),
+    "C02": dict(
+        pkg=API,
+        explanation="the api *File glue (open input, stage output via O_EXCL reservation or hidden temp file, processing, deferred commit/cleanup) is executed symbolically on the interpreted file system model: path relation (in place, same string, new output, existing output, different spelling, hard link), which file system call of the operation table fails, at which call the process is killed, and the processing outcome (success, error after a partial write, panic) are all choices explored exhaustively; the same harness replays natively on the real file system",
+        outside="operations other than the harnessed ones (one harness per wrapper family is written by hand; the generator over all 117 *File functions of DESIGN 3.4 is not built), the processing steps themselves (stubbed: they read the input, write the output, fail or panic), more than one injected fault per run, power loss (C07), CLI layer (pkg/cli)",
+        assumptions=["file system contract of rt/vfs.go: failed calls change nothing, rename is atomic, O_EXCL create fails iff the name exists, CreateTemp returns a fresh name", "stub contract: processing touches nothing but its reader and writer"],
+        harnesses=[dict(name="VerifOptimizeFile", bounds=dict(quick=dict(CALLS=10), thorough=dict(CALLS=12)), opts=dict(unwind=300, workers=8))],
+    ),
+    "C03": dict(
+        pkg=API,
+        explanation="the api *File glue (open input, stage output via O_EXCL reservation or hidden temp file, processing, deferred commit/cleanup) is executed symbolically on the interpreted file system model: path relation (in place, same string, new output, existing output, different spelling, hard link), which file system call of the operation table fails, at which call the process is killed, and the processing outcome (success, error after a partial write, panic) are all choices explored exhaustively; the same harness replays natively on the real file system",
+        outside="operations other than the harnessed ones (one harness per wrapper family is written by hand; the generator over all 117 *File functions of DESIGN 3.4 is not built), the processing steps themselves (stubbed: they read the input, write the output, fail or panic), more than one injected fault per run, power loss (C07), CLI layer (pkg/cli)",
+        assumptions=["file system contract of rt/vfs.go: failed calls change nothing, rename is atomic, O_EXCL create fails iff the name exists, CreateTemp returns a fresh name", "stub contract: processing touches nothing but its reader and writer"],
+        harnesses=[dict(name="VerifOptimizeFile", bounds=dict(quick=dict(CALLS=10), thorough=dict(CALLS=12)), opts=dict(unwind=300, workers=8))],
+    ),
     "C05": dict(
         pkg="./pkg/pdfcpu/sanitize",
         explanation="sanitize.Path / pathPart / PathOr executed symbolically on attacker-controlled names whose every byte is an SMT variable (lengths 0..N, so every UTF-8 class, control characters, separators, drive prefixes, dots and DOS device names up to the bound): the result is rejected or one safe relative path component",
         outside="names longer than N bytes (reserved device names of 4 characters such as COM1 need N >= 4: thorough tier); the call sites that join the sanitised name to the output directory and the collision check between two attachments",
-        harnesses=[dict(name="VerifSanitizedPath", bounds=dict(quick=dict(N=2), thorough=dict(N=3)), opts=dict(unwind=100))],
+        harnesses=[dict(name="VerifSanitizedPath", bounds=dict(quick=dict(N=2), thorough=dict(N=3)), opts=dict(unwind=100)),
+                   dict(name="VerifSanitizedPathDeep", bounds=dict(quick=dict(K=13), thorough=dict(K=18)), opts=dict(unwind=600))],
     ),
     "C12": dict(
         pkg=TY,
@@ -144,6 +166,7 @@ PROPS = {
         harnesses=[
             dict(name="VerifPageSelection", bounds=dict(quick=dict(P=6, T=1), thorough=dict(P=12, T=1)), opts=dict(unwind=100)),
             dict(name="VerifPageSelection", bounds=dict(quick=dict(P=1, T=2), thorough=dict(P=3, T=2)), opts=dict(unwind=100), nodiff=True),
+            dict(name="VerifPageSelectionEvenOdd", bounds=dict(quick=dict(P=4), thorough=dict(P=8)), opts=dict(unwind=100)),
             dict(name="VerifPageRemoval", bounds=dict(quick=dict(P=4), thorough=dict(P=8)), opts=dict(unwind=100)),
             dict(name="VerifPageCollection", bounds=dict(quick=dict(P=4, T=1), thorough=dict(P=3, T=2)), opts=dict(unwind=100)),
             dict(name="VerifPageSelectionSyntax", opts=dict(workers=1)),
